@@ -35,7 +35,7 @@ func (c *c07) Meta() engine.Meta {
 		Category:  "model_checking",
 		LevelName: "number of restarts in the history (size of the restart set)",
 		Technique: "exhaustive enumeration of restart sets over block boundaries x deviation-bounded histories on the real application, twin oracle against the continuously running replica",
-		Rule: "histories: the dense 8-block history (validator membership change, limiter-sensitive staking, proposal by a validator, governance change of gasPrice, withdrawals, contract storage writes) in genesis variants g3 and g4L (live stake limiter), plus every single deviation from a core menu (staking / unstaking / proposal / vote / withdraw / contract call appended to any block); plus a variant whose passing proposal changes maxValidatorCnt and minValidatorStake themselves (10 blocks), plus the small-stake history (power-1 stakes, evidence with forfeiture, repeated evidence, jailing; 9 blocks), plus a padded 12-block variant that crosses version 10 where the reward hash is re-folded. " +
+		Rule: "histories: the dense 8-block history (validator membership change, limiter-sensitive staking, proposal by a validator, governance change of gasPrice, withdrawals, contract storage writes) in genesis variants g3 and g4L (live stake limiter), plus every single deviation from a core menu (staking / unstaking / proposal / vote / withdraw / contract call appended to any block); plus a variant whose passing proposal changes maxValidatorCnt and minValidatorStake themselves (10 blocks), plus the small-stake history (power-1 stakes, evidence with forfeiture, repeated evidence, jailing; 9 blocks), plus a history in which TWO passed proposals are applied in the same block and the following blocks depend on every changed parameter (gas price, minimum gas, slash ratio; 10 blocks, restart sets of size <= 2), plus a padded 12-block variant that crosses version 10 where the reward hash is re-folded. " +
 			"For each history every subset of the block boundaries 1..7 of size <= 2 (quick) / every subset (thorough, default history) is a restart set; a restart = copy of the data directory (kill -9 model), new RigoApp, Info. " +
 			"Oracle: Info reports the continuous replica's height and app hash; every later DeliverTx / EndBlock / Commit response equals the continuous replica's. " +
 			"distinct_nontrivial = executions with at least one restart directly after a block that changed stakes, validators or parameters.",
@@ -67,6 +67,19 @@ func paddedHistory(g *sim.Genesis) sim.History {
 	return h
 }
 
+// twoProposalsHistory: two passed proposals are applied in the SAME block (they overlap in one field); the blocks after
+// it depend on every changed parameter: transfers (gas price, minimum gas), staking, evidence (slash ratio).
+func twoProposalsHistory(g *sim.Genesis) sim.History {
+	h := c15History(g)
+	h.Blocks[2].Txs = twoProposals()
+	h.Blocks[3].Txs = []sim.TxSpec{vote("V0", 0, 0), vote("V1", 0, 0), vote("V2", 0, 0), vote("V0", 1, 0), vote("V1", 1, 0), vote("V2", 1, 0)}
+	h.Blocks[4].Txs = []sim.TxSpec{tr("U0", "U1", "1R")}
+	h.Blocks[6].Txs = []sim.TxSpec{tr("U0", "U1", "1R"), stk("U1", "V1", "1R")}
+	h.Blocks[7] = blkO(sim.BlockOpts{Evidence: []string{"V1"}}, tr("W", "U0", "1R"))
+	h.Blocks[8].Txs = []sim.TxSpec{tr("U1", "U0", "1"), setdoc("W", "w", "http://w")}
+	return h
+}
+
 func (c *c07) build() {
 	c.slots = map[string]*slotSet{}
 	c.base = map[string]sim.History{}
@@ -83,6 +96,8 @@ func (c *c07) build() {
 	c.slots["g3mv"] = historySlots(mv, c07Menu(), false)
 	c.base["g3s"] = smallStakeHistory(genesis3s())
 	c.slots["g3s"] = historySlots(c.base["g3s"], nil, false)
+	c.base["g3two"] = twoProposalsHistory(genesis3())
+	c.slots["g3two"] = historySlots(c.base["g3two"], nil, false)
 	c.base["g3pad"] = paddedHistory(genesis3())
 	c.slots["g3pad"] = historySlots(c.base["g3pad"], nil, false)
 }
@@ -156,6 +171,11 @@ func (c *c07) Prepare(tier string, seed int64) error {
 			c.cases = append(c.cases, c07Case{Variant: "g3s", Restarts: r, Lv: len(r)})
 		}
 	}
+	for _, r := range subsets(9, 2) {
+		if len(r) > 0 {
+			c.cases = append(c.cases, c07Case{Variant: "g3two", Restarts: r, Lv: len(r)})
+		}
+	}
 	for _, r := range subsets(11, 1) {
 		if len(r) > 0 {
 			c.cases = append(c.cases, c07Case{Variant: "g3pad", Restarts: r, Lv: 1})
@@ -192,8 +212,10 @@ func (c *c07) RunDesc(desc json.RawMessage) engine.Result {
 	for _, r := range cs.Restarts {
 		rs[r] = true
 	}
+	retries0 := sim.SnapshotRetries
 	a := sim.Run(tmpRoot(), h, &sim.Hooks{RestartAfter: rs, NoStates: true})
 	defer a.Cleanup()
+	res.Count("snapshots_repeated(directory changed while it was copied)", sim.SnapshotRetries-retries0)
 	if a.Err != "" && !a.Chain.Dead {
 		res.Err = a.Err
 		return res
